@@ -187,6 +187,10 @@ func (st *State) heap(key, sort string) string {
 	st.heaps[key] = n
 	if ax, ok := heapInvariant[key]; ok {
 		st.assume(strings.ReplaceAll(ax, "$H", n))
+	} else if theSorts != nil {
+		if ax := theSorts.heapInitAxiom(key, n); ax != "" {
+			st.assume(ax)
+		}
 	}
 	return n
 }
